@@ -19,9 +19,11 @@ PY = "/venv/bin/python"
 RUNNER = os.path.join(os.path.dirname(os.path.dirname(os.path.abspath(__file__))), "c14_runner.py")
 
 JOBS = {
-    "quick": ([("config", s) for s in ("0", "1", "42", "4294967295", "r1", "r2")] + [("history", i) for i in range(4)] +
-              [("threads", (2, 0.02, 0)), ("threads", (4, 0.02, 1)), ("threads", (8, 0.01, 2)), ("threads", (2, 0.05, 3)), ("threads", (4, 0.005, 4)), ("threads", (8, 0.02, 5))]),
+    "quick": ([("config", s) for s in ("1", "42", "4294967295", "r1")] + [("history", i) for i in range(3)] +
+              [("coldstart", 0), ("coldstart", 1)] + [("preempt", (i, 2)) for i in range(2)] +
+              [("threads", (2, 0.02, 0)), ("threads", (4, 0.02, 1)), ("threads", (8, 0.01, 2)), ("threads", (4, 0.005, 4))]),
     "thorough": ([("config", s) for s in ["0", "1", "42", "4294967295"] + [f"r{i}" for i in range(36)]] + [("history", i) for i in range(20)] +
+                 [("coldstart", i) for i in range(8)] + [("preempt", (i, 8)) for i in range(8)] +
                  [("threads", (T, p, i)) for i, (T, p) in enumerate([(2, 0.02), (4, 0.02), (8, 0.01), (2, 0.05), (4, 0.005), (8, 0.02)] * 5)] + [("bigwrite", 0)]),
 }
 SPEC = {
@@ -35,8 +37,8 @@ SPEC = {
     "assumptions": ["threads operate on their own graph objects built from shared immutable texts (sharing one mutable graph between threads is outside the statement)",
                     "the 10 timestamp characters of header line 2 of a written molfile are masked", "yield injection only at line starts of antlr4/tucan Python code; no pre-emption inside C calls"],
     "shards": {"quick": len(JOBS["quick"]), "thorough": len(JOBS["thorough"])},
-    "monitors_required": ["c14_config_compare", "c14_history_compare", "c14_schedule_compare", "c14_reference_tables_agree"],
-    "required_obs": {"quick": ["context_switches_observed", "cov_invalid_parse_ops", "cov_distinct_schedule_signatures_ge_2", "cov_hash_seeds", "disturbances"]},
+    "monitors_required": ["c14_config_compare", "c14_history_compare", "c14_schedule_compare", "c14_coldstart_compare", "c14_preempt_compare", "c14_reference_tables_agree"],
+    "required_obs": {"quick": ["preempt_schedules", "coldstart_context_switches_observed", "context_switches_observed", "cov_invalid_parse_ops", "cov_distinct_schedule_signatures_ge_2", "cov_hash_seeds", "disturbances"]},
     "watchdog_s": {"quick": 1500, "thorough": 7200},
 }
 
@@ -102,6 +104,11 @@ def build_ops(repo, seed):
             add("write_tucan", s)
     for s in ("C2H6O/(1-7)(2-7)(3-7)(4-8)(5-8)(6-9)(7-8)(8-9)", "C6/(1-2)(1-3)(2-4)(3-5)(4-6)(5-6)", "H2O/(1-3)(2-3)/(1:mass=2)"):
         add("write_calc", s)
+    # tiny labelled inputs for the systematic pre-emption sweep (H-O-D with a radical on O: isotope and radical decide the numbering)
+    hod = Mol([Atom("H", 0, 0, 0, 0.0, 0.0, 0.0), Atom("O", 0, 2, 0, 1.0, 0.0, 0.0), Atom("H", 0, 0, 2, 2.0, 0.0, 0.0)], [(0, 1, 1), (1, 2, 1)], "HOD")
+    add("ser_text", ctab.render_v3000(hod, V3Style(), rng), tiny=True)
+    add("ser_text", ctab.render_v2000(hod, V2Style(encoding="lines"), rng), tiny=True)
+    add("norm", "H2O/(1-3)(2-3)/(2:mass=2)(3:rad=2)", tiny=True)
     bad = ["", "C", "C/", "CH4/(1-2", "HC/", "C2H6/(1-2)(1-9)", "C/(1-1)", "CH4/(1-2)/(1:mass=2,mass=3)", "C1H4/", "Cl2/(1-2)/(3:rad=1)", "c/", "C H/", "CH4/(0-1)",
            "CH4/(1-2)/(1:mass=0)", "Xe/(1-2)", "CH4/(1–2)"]
     for s in bad:
@@ -163,6 +170,37 @@ def run(ctx):
             if t2.get(oid) != d:
                 ctx.violation("config:hash-seed", {"what": "result differs between PYTHONHASHSEED=0 and another hash seed", "hash_seed": hs, "operation": byid[oid]["op"], "input": byid[oid]["input"][:600]},
                               {"kind": "config", "hashseed": hs, "op": byid[oid]})
+    elif kind == "preempt":
+        part, parts = arg
+        tiny = [o for o in ops if o.get("tiny")]
+        for op in tiny:
+            r = runner(ctx, [ops_path, "preempt_sweep", table_path, op["id"], 1 + part, parts], timeout=1200)
+            ctx.evaluations += 2 * r["schedules"]
+            ctx.mon("c14_preempt_compare", 2 * r["schedules"])
+            ctx.count("preempt_schedules", r["schedules"])
+            ctx.maxi("max_preempt_lines_in_operation", r["lines_in_operation"] or 0)
+            ctx.nontrivial(("preempt", op["id"], part, r["schedules"]))
+            for f in r["failing"][:3]:
+                ctx.violation("schedule:pre-emption", {"what": "result differs when another thread runs the same operation while this one is suspended at one of its source lines (cold process)",
+                                                       "operation": op["op"], "input": op["input"][:400], "suspended_at": f["suspended_at"], "k": f["k"],
+                                                       "suspended_thread_ok": f["a_ok"], "other_thread_ok": f["b_ok"]},
+                              {"kind": "preempt", "op_id": op["id"], "k": f["k"]})
+    elif kind == "coldstart":
+        n_proc = 12 if ctx.tier == "quick" else 24
+        for i in range(n_proc):
+            T, p = [(2, 0.5), (3, 0.3), (4, 0.2), (2, 0.15)][i % 4]
+            r = runner(ctx, [ops_path, "coldstart", table_path, f"{ctx.seed}/{arg}/{i}", T, p], timeout=300)
+            ctx.evaluations += r["executed"]
+            ctx.mon("c14_coldstart_compare", r["executed"])
+            ctx.count("coldstart_processes")
+            ctx.count("coldstart_context_switches_observed", r["context_switches_observed"])
+            ctx.nontrivial(("coldstart", arg, i, r["context_switches_observed"]))
+            for m in r["mismatches"][:3]:
+                ctx.violation("schedule:cold-start", {"what": "the first library calls of a fresh process, made from several threads at once, give another result than the same calls made alone", **m},
+                              {"kind": "coldstart", "T": T, "p": p, "yseed": f"{ctx.seed}/{arg}/{i}"})
+            if r["errors"]:
+                ctx.violation("schedule:cold-start", {"what": "an operation escaped with an exception when it was among the first calls of the process", "errors": r["errors"]},
+                              {"kind": "coldstart", "T": T, "p": p, "yseed": f"{ctx.seed}/{arg}/{i}"})
     elif kind == "history":
         n_hist = 3 if ctx.tier == "quick" else 6
         r = runner(ctx, [ops_path, "history", table_path, f"{ctx.seed}/{arg}", n_hist])
@@ -234,6 +272,14 @@ def replay(ctx, w):
         r = runner(ctx, [ops_path, "history", table_path, case["hist_seed"], case["n"]])
         for m in r["mismatches"]:
             ctx.violation("history:order", {"what": "result depends on history", **m}, case)
+    elif case["kind"] == "preempt":
+        r = runner(ctx, [ops_path, "preempt", table_path, case["op_id"], case["k"]])
+        if not (r["a_ok"] and r["b_ok"]):
+            ctx.violation("schedule:pre-emption", {"what": "result differs under a single pre-emption", **r}, case)
+    elif case["kind"] == "coldstart":
+        r = runner(ctx, [ops_path, "coldstart", table_path, case["yseed"], case["T"], case["p"]])
+        for m in r["mismatches"]:
+            ctx.violation("schedule:cold-start", {"what": "result differs when the call is among the first of the process, from several threads", **m}, case)
     elif case["kind"] == "threads":
         r = runner(ctx, [ops_path, "threads", table_path, case["yseed"], case["T"], case["p"], 120])
         for m in r["mismatches"]:
